@@ -105,17 +105,32 @@ def jsonable(o):
 _FN = None
 
 
+FLOOD = 20000    # unattributed violations after which a run stops early
+
+
 def _call(chunk):
     res = Result()
     for item in chunk:
         _FN(item, res)
+        if sum(1 for v in res.violations if v["kf"] is None) > FLOOD:
+            res.caps_hit.append("chunk stopped early: violation flood")
+            res.exhaustive = False
+            break
     return res
+
+
+def _call_indexed(arg):
+    i, chunk = arg
+    return i, _call(chunk)
 
 
 def pmap(ctx, fn, items, chunk=None):
     """run fn(item, result) for every item, on ctx.workers forked workers.
 
-    Partitioning is deterministic (consecutive chunks, ordered merge)."""
+    Partitioning is deterministic (consecutive chunks, merge in chunk
+    order).  A run that has collected more than FLOOD violations without a
+    known-finding id stops early (the check fails anyway; a tree that is
+    broken that badly can also be arbitrarily slow): the cap is reported."""
     global _FN
     items = list(items)
     total = Result()
@@ -126,14 +141,33 @@ def pmap(ctx, fn, items, chunk=None):
         chunk = max(1, min(200, len(items) // (workers * 4) or 1))
     chunks = [items[i:i + chunk] for i in range(0, len(items), chunk)]
     _FN = fn
+    done = {}
+    bad = 0
+
+    def flooded(r):
+        nonlocal bad
+        bad += sum(1 for v in r.violations if v["kf"] is None)
+        return bad > FLOOD
     if workers == 1:
-        for c in chunks:
-            total.merge(_call(c))
-        return total
-    mpctx = mp.get_context("fork")
-    with mpctx.Pool(workers) as pool:
-        for r in pool.imap(_call, chunks):
-            total.merge(r)
+        for i, c in enumerate(chunks):
+            done[i] = _call(c)
+            if flooded(done[i]):
+                break
+    else:
+        mpctx = mp.get_context("fork")
+        with mpctx.Pool(workers) as pool:
+            for i, r in pool.imap_unordered(_call_indexed,
+                                            list(enumerate(chunks))):
+                done[i] = r
+                if flooded(r):
+                    break       # leaving the with-block terminates the pool
+    for i in sorted(done):
+        total.merge(done[i])
+    if len(done) < len(chunks):
+        total.caps_hit.append(
+            f"stopped early after more than {FLOOD} unattributed violations: "
+            f"{len(done)} of {len(chunks)} chunks were explored")
+        total.exhaustive = False
     return total
 
 
